@@ -19,7 +19,9 @@ CFG = dict(
     # Transform.lean: the quaternion code (FromTheta, Rotate) the six-quad box and the cylinder's bottom cap are built with
     # PrimLoops.lean: loop nests / bounds / index expressions of UVSphere, UVSphereUnwelded, Hemisphere.UV, Circle.ToMesh, Cylinder.ToMesh
     gen=[dict(tool="facts", mode="c18.cube", out="CubeTable.lean"), dict(spec="transform.json", out="Transform.lean"),
-         dict(tool="facts", mode="c18.loops", out="PrimLoops.lean")],
+         dict(tool="facts", mode="c18.loops", out="PrimLoops.lean"),
+         # PrimAssembly.lean: cap placements of Cylinder.ToMesh, the six faces of Cube.UnweldedQuads (+ rotate helper), Quad.ToMesh vectors
+         dict(tool="facts", mode="c18.assembly", out="PrimAssembly.lean")],
     # theorems: maintained by the C18 builder
     theorems=["uvSphere_closed", "uvSphereUnwelded_closed_mod_merge", "hemisphere_closed", "cylinder_closed_mod_merge",
               "cubeWelded_closed", "quadTris_eq_table", "cubeQuads_closed_mod_merge",
@@ -44,7 +46,9 @@ CFG = dict(
               "circle_positions_from_source", "cylinderSide_positions_from_source",
               "uvSphere_oneUmbrella", "hemisphere_oneUmbrella", "uvSphereUnwelded_oneUmbrella_mod_merge",
               "cylinder_oneUmbrella_mod_merge", "umbrella_checker_sound", "cubeWelded_oneUmbrella",
-              "cubeQuads_oneUmbrella_mod_merge"],
+              "cubeQuads_oneUmbrella_mod_merge",
+              "cubeQuads_construction_from_source", "cylinder_assembly_from_source",
+              "hemisphere_connected", "uvSphereUnwelded_connected_mod_merge", "cylinder_connected_mod_merge"],
     streams=[dict(name="c18", n=dict(quick=30, thorough=60),
                   ulps={"c18.pos.sphere": _SIN, "c18.pos.sphereu": _SIN, "c18.pos.hemi": _SIN, "c18.nrm.sphere": _SINN,
                         "c18.pos.cyl": _ROT, "c18.nrm.cyl": _ROTN, "c18.pos.cubeq": _ROT, "c18.nrm.cubeq": _ROTN})],
